@@ -352,9 +352,9 @@ private:
 
 class DeferredWriter {
 public:
-    void deferred_write(File&& file, const std::string& destination_path, std::function<void(const std::string&)> permission_callback)
+    void deferred_write(File&& file, const std::string& destination_path, std::function<void(const std::string&)> prepare_callback, std::function<void(const std::string&)> permission_callback)
     {
-        m_deferred_writes.push_back(FileWrite { std::move(file), destination_path, std::move(permission_callback) });
+        m_deferred_writes.push_back(FileWrite { std::move(file), destination_path, std::move(prepare_callback), std::move(permission_callback) });
     }
 
     // The source of a rename may only be removed once its content has been written to the new name.
@@ -373,6 +373,7 @@ public:
     void finalize()
     {
         for (auto& deferred_write : m_deferred_writes) {
+            deferred_write.prepare_callback(deferred_write.destination_path);
             File file(deferred_write.destination_path, std::ios_base::out | std::ios::trunc);
             deferred_write.source.write_entire_contents_to(file);
             deferred_write.permission_callback(deferred_write.destination_path);
@@ -389,6 +390,7 @@ private:
     struct FileWrite {
         File source;
         std::string destination_path;
+        std::function<void(const std::string&)> prepare_callback;
         std::function<void(const std::string&)> permission_callback;
     };
 
@@ -419,9 +421,6 @@ static PermissionResult fix_permissions_if_needed(std::ostream& out, const Optio
 
             out << " trying to patch anyway\n";
         }
-
-        if (!options.dry_run)
-            filesystem::permissions(output_file, result.old_permissions | write_perm_mask);
     }
 
     return result;
@@ -435,6 +434,14 @@ void write_patched_result_to_file(const Patch& patch, const std::string& output_
         ensure_parent_directories(output_file_path);
 
     const auto new_mode_copy = patch.new_file_mode;
+
+    // A read-only file is only made writable for as long as it is being written to, so that it is
+    // left as it was should anything go wrong before that.
+    auto prepare_callback = [permission_result](const std::string& path) {
+        const auto write_perm_mask = filesystem::perms::group_write | filesystem::perms::owner_write | filesystem::perms::others_write;
+        if (permission_result.needed_to_fix_permissions && filesystem::exists(path))
+            filesystem::permissions(path, permission_result.old_permissions | write_perm_mask);
+    };
 
     auto permission_callback = [permission_result, new_mode_copy](const std::string& path) {
         if (new_mode_copy != 0) {
@@ -463,9 +470,10 @@ void write_patched_result_to_file(const Patch& patch, const std::string& output_
             const auto symlink_target = patched_file.read_all_as_string();
             filesystem::symlink(symlink_target, output_file_path);
         } else {
-            deferred_writer.deferred_write(std::move(patched_file), output_file_path, std::move(permission_callback));
+            deferred_writer.deferred_write(std::move(patched_file), output_file_path, std::move(prepare_callback), std::move(permission_callback));
         }
     } else {
+        prepare_callback(output_file_path);
         File file(output_file_path, mode | std::ios::trunc);
         patched_file.write_entire_contents_to(file);
         permission_callback(output_file_path);
